@@ -848,15 +848,20 @@ Definition twin (p : hparams) (k : Z) (a b : hstate) : Prop :=
   h_ds a = h_ds b /\ (1 <= h_since a -> h_prev a = h_prev b) /\
   h_cur_now a = h_cur_now b /\ h_eps_now a = h_eps_now b /\ h_beta_now a = h_beta_now b.
 
-Lemma twin_obs k a b : twin k a b -> hobserve a = hshift k (hobserve b).
+Lemma twin_obs (p : hparams) k a b : twin p k a b -> hobserve a = hshift k (hobserve b).
 Proof.
-  intros (H1 & H2 & H3 & H4 & H5 & H6 & H7 & H8 & H9 & H10 & H11 & H12 & H13 & H14).
-  unfold hobserve, hshift. simpl. rewrite H1, H2, H4, H5, H7, H8, H10, H12, H13, H14. reflexivity.
+  intros (F1 & F2 & F3 & F4 & H1 & H2 & H3 & H4 & H5 & H6 & H7 & H8 & H9 & H10 & H11 & H12 & H13 & H14).
+  unfold hobserve, hshift. simpl. rewrite <- H8, <- H10.
+  replace (if 2 <=? h_since a then h_feps b else None) with (if 2 <=? h_since a then h_feps a else None)
+    by (destruct (2 <=? h_since a) eqn:E; [rewrite F2 by lia|]; reflexivity).
+  replace (if is_drift (h_ds a) then h_finfo b else None) with (if is_drift (h_ds a) then h_finfo a else None)
+    by (destruct (h_ds a) eqn:E; simpl; try reflexivity; rewrite F3; reflexivity).
+  rewrite H1, H2, H4, H5, H7, H12, H13, H14. reflexivity.
 Qed.
 
-Lemma twin_core (p : hparams) k a b X bt : twin k a b -> h_ds b <> DDrift -> twin k (core p a X bt) (core p b X bt).
+Lemma twin_core (p : hparams) k a b X bt : twin p k a b -> h_ds b <> DDrift -> twin p k (core p a X bt) (core p b X bt).
 Proof.
-  intros (H1 & H2 & H3 & H4 & H5 & H6 & H7 & H8 & H9 & H10 & H11 & H12 & H13 & H14) Hnd.
+  intros (F1 & F2 & F3 & F4 & H1 & H2 & H3 & H4 & H5 & H6 & H7 & H8 & H9 & H10 & H11 & H12 & H13 & H14) Hnd.
   assert (Hid : is_drift (h_ds b) = false) by (destruct (h_ds b); try reflexivity; congruence).
   assert (Eh : c_hists p a X = c_hists p b X) by (unfold c_hists; rewrite H1, H3; reflexivity).
   assert (Ef : c_fds p a X = c_fds p b X) by (unfold c_fds; rewrite Eh; reflexivity).
@@ -865,7 +870,7 @@ Proof.
   assert (Ehe : c_has_eps a = c_has_eps b) by (unfold c_has_eps; rewrite Es; reflexivity).
   assert (Ehb : c_has_beta p a = c_has_beta p b) by (unfold c_has_beta; rewrite Es, Ehe; reflexivity).
   destruct (Z.eq_dec (h_since a) 0) as [Z0|NZ].
-  - (* first batch of the epoch: no epsilon, no threshold, no drift *)
+  - (* first batch of the epoch: no epsilon, no threshold, no drift, feature_epsilons left alone *)
     assert (Ea : c_has_eps a = false) by (unfold c_has_eps, c_since; lia).
     assert (Eb : c_has_eps b = false) by (rewrite <- Ehe; exact Ea).
     assert (Ba : c_has_beta p a = false) by (unfold c_has_beta; rewrite Ea; reflexivity).
@@ -873,38 +878,46 @@ Proof.
     assert (Da : c_drift p a X bt = false) by (unfold c_drift; rewrite Ba; reflexivity).
     assert (Db : c_drift p b X bt = false) by (unfold c_drift; rewrite Bb; reflexivity).
     unfold twin. rewrite !core_eq. cbv zeta. rewrite Da, Db, Ea, Eb, Ba, Bb. simpl.
-    rewrite H1, H2, H3, H4, H5, H10, Ec, Hid. unfold c_total, c_since. simpl.
-    repeat split; try reflexivity; try lia.
+    rewrite H1, H2, H3, H4, H5, H10, Ec, Ef, Hid. unfold c_total, c_since. simpl.
+    repeat split; try reflexivity; try lia; try (intros; congruence); try exact F4.
   - assert (Hp : h_prev a = h_prev b) by (apply H11; lia).
+    assert (Hpf : h_prev_fd a = h_prev_fd b) by (apply F1; lia).
     assert (Ece : c_ce p a X = c_ce p b X) by (unfold c_ce; rewrite Ec, Hp; reflexivity).
     assert (Eeb : c_eps_b p a X bt = c_eps_b p b X bt) by (unfold c_eps_b; rewrite Es, H4, Ece; reflexivity).
     assert (Eat : c_at p a X bt = c_at p b X bt).
     { unfold c_at. rewrite Eeb, H5, Es, H2. f_equal. unfold c_total. lia. }
     assert (Ebt : c_beta p a X bt = c_beta p b X bt) by (unfold c_beta; rewrite Eat; reflexivity).
     assert (Ed : c_drift p a X bt = c_drift p b X bt) by (unfold c_drift; rewrite Ehb, Ebt, Ece; reflexivity).
-    unfold twin. rewrite !core_eq. cbv zeta. rewrite Ed, Ehe, Ehb, Eat. simpl.
-    rewrite H1, H2, H3, H4, H5, H10, Ec, Ece, Ebt, Eeb, Hp. unfold c_total, c_since.
-    repeat split; try reflexivity; try lia.
+    assert (Efe : c_feps p a X = c_feps p b X).
+    { unfold c_feps. rewrite Es, Ef, Hpf. unfold c_since. replace (1 <? h_since b + 1) with true by lia. reflexivity. }
+    unfold twin. rewrite !core_eq. cbv zeta. rewrite Ed, Ehe, Ehb, Eat, Efe. simpl.
+    rewrite H1, H2, H3, H4, H5, H10, Ec, Ece, Ebt, Eeb, Hp, Ef, Hpf. unfold c_total, c_since.
+    destruct (c_drift p b X bt) eqn:Edb; simpl.
+    + destruct (1 <? h_k p) eqn:Ek; simpl; repeat split; try reflexivity; try lia; try (intros; congruence); try (intros; apply F4; assumption); try (intros; apply F4; reflexivity).
+    + rewrite Hid. simpl. repeat split; try reflexivity; try lia; try (intros; congruence); try exact F4.
 Qed.
 
 Lemma twin_reset_base (p : hparams) k a b :
   h_ref a = h_ref b -> h_lambda a = h_lambda b + k -> h_total a = h_total b + k ->
-  twin k (hdm_reset_base p a) (hdm_reset_base p b).
+  ((1 <? h_k p) = false -> h_finfo a = h_finfo b) ->
+  twin p k (hdm_reset_base p a) (hdm_reset_base p b).
 Proof.
-  intros H1 H2 H3. unfold twin, hdm_reset_base. simpl. rewrite H1. repeat split; try reflexivity; try lia.
+  intros H1 H2 H3 H4. unfold twin, hdm_reset_base. simpl. rewrite H1.
+  repeat split; try reflexivity; try lia; try (intros; discriminate); exact H4.
 Qed.
 
 Lemma twin_reset (p : hparams) k a b :
   h_ref a = h_ref b -> h_lambda a = h_lambda b + k -> h_total a = h_total b + k ->
-  twin k (reset p a) (reset p b).
+  ((1 <? h_k p) = false -> h_finfo a = h_finfo b) ->
+  twin p k (reset p a) (reset p b).
 Proof.
-  intros H1 H2 H3. unfold hdm_reset. pose proof (twin_reset_base p k a b H1 H2 H3) as T.
+  intros H1 H2 H3 H4. unfold hdm_reset. pose proof (twin_reset_base p k a b H1 H2 H3 H4) as T.
   destruct (h_db p =? 1); [|exact T]. unfold hdm_proxy. rewrite H1. apply twin_core; [exact T | simpl; discriminate].
 Qed.
 
-Lemma twin_update (p : hparams) k a b X bt : twin k a b -> twin k (update p a X bt) (update p b X bt).
+Lemma twin_update (p : hparams) k a b X bt : twin p k a b -> twin p k (update p a X bt) (update p b X bt).
 Proof.
-  intros T. unfold hdm_update. pose proof T as (H1 & _ & _ & _ & _ & H6 & H7 & _ & _ & H10 & _). rewrite H10.
+  intros T. unfold hdm_update. pose proof T as (_ & _ & _ & F4 & H1 & _ & _ & _ & _ & H6 & H7 & _ & _ & H10 & _). rewrite H10.
   destruct (is_drift (h_ds b)) eqn:E; apply twin_core.
   - apply twin_reset; assumption.
   - destruct (reset_fields p b) as (R & _). rewrite R. discriminate.
@@ -913,58 +926,62 @@ Proof.
 Qed.
 
 Lemma twin_set_reference_fresh (p : hparams) k a b Y : h_total a = h_total b + k ->
+  ((1 <? h_k p) = false -> h_finfo a = h_finfo b) ->
   ((h_db p =? 1) && (zlen Y <? 3)) = false ->
-  twin k (set_reference p a Y) (set_reference p b Y).
+  twin p k (set_reference p a Y) (set_reference p b Y).
 Proof.
-  intros Ht Hok. unfold hdm_set_reference. rewrite Hok. apply twin_reset; unfold with_reference; simpl; [reflexivity | lia | lia].
+  intros Ht Hfi Hok. unfold hdm_set_reference. rewrite Hok.
+  apply twin_reset; unfold with_reference; simpl; [reflexivity | lia | lia | exact Hfi].
 Qed.
 
-Lemma twin_set_reference (p : hparams) k a b Y : twin k a b -> twin k (set_reference p a Y) (set_reference p b Y).
+Lemma twin_set_reference (p : hparams) k a b Y : twin p k a b -> twin p k (set_reference p a Y) (set_reference p b Y).
 Proof.
   intros T. destruct ((h_db p =? 1) && (zlen Y <? 3)) eqn:E.
   - unfold hdm_set_reference. rewrite E. exact T.
-  - apply twin_set_reference_fresh; [|exact E]. destruct T as (_ & _ & _ & _ & _ & _ & H7 & _). exact H7.
+  - destruct T as (_ & _ & _ & F4 & _ & _ & _ & _ & _ & _ & H7 & _). apply twin_set_reference_fresh; assumption.
 Qed.
 
-Lemma twin_apply (p : hparams) k a b o : twin k a b -> twin k (apply_op p a o) (apply_op p b o).
+Lemma twin_apply (p : hparams) k a b o : twin p k a b -> twin p k (apply_op p a o) (apply_op p b o).
 Proof. intros T. destruct o; simpl; [apply twin_update | apply twin_set_reference]; exact T. Qed.
 
-Lemma twin_trace (p : hparams) k ops : forall a b, twin k a b -> trace p a ops = map (hshift k) (trace p b ops).
+Lemma twin_trace (p : hparams) k ops : forall a b, twin p k a b -> trace p a ops = map (hshift k) (trace p b ops).
 Proof.
   induction ops as [|o ops IH]; intros a b T; simpl; [reflexivity|].
-  pose proof (twin_apply p k a b o T) as T'. rewrite (twin_obs _ _ _ T'), (IH _ _ T'). reflexivity.
+  pose proof (twin_apply p k a b o T) as T'. rewrite (twin_obs _ _ _ _ T'), (IH _ _ T'). reflexivity.
 Qed.
 
-(** set_reference at any time = a new detector given that reference *)
+(** set_reference at any time = a new detector given that reference.  (With a single feature
+    feature_info is never assigned; the hypothesis says that it is still absent - true of every
+    reachable state, [hinv].) *)
 Lemma clean_slate_set_reference (p : hparams) (s : hstate) Y ops :
-  ((h_db p =? 1) && (zlen Y <? 3)) = false ->
+  ((h_db p =? 1) && (zlen Y <? 3)) = false -> ((1 <? h_k p) = false -> h_finfo s = None) ->
   let a := set_reference p s Y in
   let b := set_reference p hdm_init Y in
   hobserve a = hshift (h_total s) (hobserve b) /\ trace p a ops = map (hshift (h_total s)) (trace p b ops).
 Proof.
-  intros Hok. cbv zeta.
-  assert (T : twin (h_total s) (set_reference p s Y) (set_reference p hdm_init Y))
-    by (apply twin_set_reference_fresh; [simpl; lia | exact Hok]).
-  split; [apply twin_obs, T | apply twin_trace, T].
+  intros Hok Hfi. cbv zeta.
+  assert (T : twin p (h_total s) (set_reference p s Y) (set_reference p hdm_init Y))
+    by (apply twin_set_reference_fresh; [simpl; lia | exact Hfi | exact Hok]).
+  split; [eapply twin_obs, T | apply twin_trace, T].
 Qed.
 
 (** after a drift: from the next update on, the detector is a new detector whose reference is the
     drifted batch *)
 Lemma clean_slate_drift (p : hparams) (s : hstate) X bt ops :
   h_ds s = DDrift -> h_lambda s = h_total s ->
-  ((h_db p =? 1) && (zlen (h_ref s) <? 3)) = false ->
+  ((h_db p =? 1) && (zlen (h_ref s) <? 3)) = false -> ((1 <? h_k p) = false -> h_finfo s = None) ->
   trace p s (OUpd X bt :: ops) =
   map (hshift (h_total s)) (trace p (set_reference p hdm_init (h_ref s)) (OUpd X bt :: ops)).
 Proof.
-  intros Hd Hl Hok.
+  intros Hd Hl Hok Hfi.
   set (f := set_reference p hdm_init (h_ref s)).
-  assert (T : twin (h_total s) (reset p s) f).
-  { unfold f, hdm_set_reference. rewrite Hok. apply twin_reset; unfold with_reference; simpl; [reflexivity | lia | lia]. }
+  assert (T : twin p (h_total s) (reset p s) f).
+  { unfold f, hdm_set_reference. rewrite Hok. apply twin_reset; unfold with_reference; simpl; [reflexivity | lia | lia | exact Hfi]. }
   assert (Hf : h_ds f = DNone).
   { unfold f, hdm_set_reference. rewrite Hok. destruct (reset_fields p (with_reference hdm_init (h_ref s))) as (R & _). exact R. }
-  assert (T' : twin (h_total s) (update p s X bt) (update p f X bt)).
+  assert (T' : twin p (h_total s) (update p s X bt) (update p f X bt)).
   { unfold hdm_update. rewrite Hd, Hf. simpl. apply twin_core; [exact T | rewrite Hf; discriminate]. }
-  simpl. rewrite (twin_obs _ _ _ T'), (twin_trace p _ ops _ _ T'). reflexivity.
+  simpl. rewrite (twin_obs _ _ _ _ T'), (twin_trace p _ ops _ _ T'). reflexivity.
 Qed.
 
 End HdmProofs.
